@@ -590,14 +590,30 @@ func renderGroup(v interface{}) string {
 // ---------- scenario ----------
 
 type scenario struct {
-	dir        string
-	scripts    []*scriptT
-	servers    []*grpc.Server
-	addrs      []string
-	collector  *exec.Cmd
-	collExited chan struct{} // closed when the collector child has been reaped
-	collAddr   string
-	collLog    string
+	dir         string
+	scripts     []*scriptT
+	servers     []*grpc.Server
+	addrs       []string
+	collector   *exec.Cmd
+	collExited  chan struct{} // closed when the collector child has been reaped
+	collWaitErr error         // valid once collExited is closed
+	collAddr    string
+	collLog     string
+}
+
+// killedFromOutside: the collector child is gone because something outside the
+// harness sent it SIGKILL (the kernel under memory pressure), not because it
+// ended by its own hand; whatever the observers saw then is not about the code.
+func (sc *scenario) killedFromOutside() bool {
+	if sc.collExited == nil {
+		return false
+	}
+	select {
+	case <-sc.collExited:
+		return sc.collWaitErr != nil && strings.Contains(sc.collWaitErr.Error(), "signal: killed")
+	default:
+		return false
+	}
 }
 
 func (sc *scenario) stop() {
@@ -759,7 +775,7 @@ func runScenario(r *vlib.Run, mode string, trial int, rng *rand.Rand) {
 		sc.collector = cmd
 		exited := make(chan struct{})
 		sc.collExited = exited
-		go func() { cmd.Wait(); close(exited) }()
+		go func() { sc.collWaitErr = cmd.Wait(); close(exited) }()
 	wait:
 		for i := 0; i < 400; i++ {
 			select {
@@ -958,6 +974,8 @@ func runScenario(r *vlib.Run, mode string, trial int, rng *rand.Rand) {
 					switch {
 					case strings.Contains(log, "not found in cache") || strings.Contains(log, "dropped cache.Update"):
 						r.Violation(mode, trial, "relay-dropped-updates", fmt.Sprintf("subscriber for %q never saw the sentinel of %s; the collector's log shows it dropped the target's updates", o.target, s.name), w)
+					case ended && sc.killedFromOutside():
+						r.Inconclusive("the collector process was killed by SIGKILL from outside the harness; scenario not judged")
 					case ended:
 						r.Violation(mode, trial, "subscribe-refused", fmt.Sprintf("client subscription for target %q through the collector ended: %v", o.target, o.err), w)
 					case overdue:
@@ -998,6 +1016,10 @@ func runScenario(r *vlib.Run, mode string, trial int, rng *rand.Rand) {
 		select {
 		case <-o.c.Synced():
 		case <-o.done:
+			if sc.killedFromOutside() {
+				r.Inconclusive("the collector process was killed by SIGKILL from outside the harness; scenario not judged")
+				return
+			}
 			r.Violation(mode, trial, "subscribe-refused", fmt.Sprintf("client subscription for target %q through the collector ended: %v", o.target, o.err), wit())
 			return
 		case <-time.After(time.Until(deadline)):
